@@ -213,6 +213,16 @@ def run_stream(res, work, tier, seed):
                 cfgr["skip_at"] = sorted(set(rng.choice(pts) for _ in range(rng.randrange(0, 3))))
                 cfgr["stop_at"] = sorted(set(rng.choice(pts) for _ in range(rng.randrange(0, 2))))
             runs.append({"run": rid, "cfg": cfgr, "ops": []})
+    # records whose decoded size is right at the judge's limit, around the 252-byte first chunk (encoded size = size + 1 or + 3)
+    for plen in (1, 250, 251, 252, 253, 254, 300):
+        rec = _enc_simple([(i * 3 + 1) % 251 for i in range(plen)])
+        st = [1, 97, FE, FD] + rec + [FE, FD, 1, 98]
+        for mx in (plen - 1, plen, plen + 1, plen + 2, plen + 3):
+            if mx < 0:
+                continue
+            rid += 1
+            runs.append({"run": rid, "cfg": {"kind": "reader", "stream": st, "block": rng.choice([-1, 3, 4096]), "sched": rng.choice(SCHEDS),
+                                             "max": mx, "limit": -1}, "ops": []})
     # (3) long streams: stuff sequences that straddle / start at / end at large power-of-two offsets and read boundaries,
     # with block sizes of 64 KiB and more (the default is 512 KiB)
     def _long(pairs, n=140000):
